@@ -4,6 +4,7 @@ import itertools
 from ..core import cnorm_block, AnalysisError, norm, dotted, call_name, walk_no_nested, Folder, TOP, is_self_attr
 from ..consteval import Interp
 from ..formula import check_formula, check_return, compare
+from .. import roles
 
 LEVEL = 'other'
 EXPLANATION = (
@@ -526,8 +527,12 @@ def rule_part(run):
                   'layers are not rebuilt from the old top elevation')
     run.shape('self.add_layers(thicknesses, top_elevation, ' in txt, 'mulgrid.refine_layers :: rebuilt by add_layers(thicknesses, top_elevation)',
               'call not recognised', where=fi.where())
-    run.shape('atm_name = self.layerlist[0].name' in txt and 'self.rename_layer(self.layerlist[0].name, atm_name)' in txt,
-              'mulgrid.refine_layers :: atmosphere layer name preserved', 'idiom not recognised', where=fi.where())
+    # the old atmosphere layer name is read before the layers are cleared and either handed to add_layers as the surface
+    # layer name or restored by rename_layer afterwards (role of the variable: assigned self.layerlist[0].name)
+    saved = [nm for nm, v, st in roles.assignments(fi.node) if norm(v) == 'self.layerlist[0].name']
+    calls_ = [c for c in walk_no_nested(fi.node) if isinstance(c, ast.Call) and call_name(c) in ('add_layers', 'rename_layer')]
+    kept = any(any(isinstance(a, ast.Name) and a.id in saved for a in list(c.args) + [k.value for k in c.keywords]) for c in calls_)
+    run.shape(bool(saved) and kept, 'mulgrid.refine_layers :: atmosphere layer name preserved', 'idiom not recognised', where=fi.where())
     al = prog.func('mulgrids.mulgrid.add_layers')
     check_formula(run, 'mulgrid.add_layers :: centre is mid-layer', al, 'centre', 'z + 0.5 * thickness',
                   'layer centre is not bottom + thickness/2')
